@@ -197,6 +197,94 @@ def program_stage(run, wits, broken):
     return st
 
 
+TN_TYPES = [
+    ("int32", "1"), ("bool", "true"), ("string", '"s"'), ("[int32; 2]", "[1, 2]"), ("[int32; 3]", "[1, 2, 3]"), ("[bool; 2]", "[true, false]"), ("[[int32; 2]; 2]", "[[1, 2], [3, 4]]"),
+    ("[[int32; 2]; 3]", "[[1, 2], [3, 4], [5, 6]]"), ("[[int32; 3]; 2]", "[[1, 2, 3], [4, 5, 6]]"), ("Vec[int32]", "mkvi()"), ("Vec[bool]", "mkvb()"), ("Vec[[int32; 2]]", "mkva2()"), ("Vec[[int32; 3]]", "mkva3()"),
+    ("Vec[Vec[int32]]", "mkvv()"), ("Ref[int32]", "ref(1)"), ("Ref[bool]", "ref(true)"), ("Ref[[int32; 2]]", "ref([1, 2])"), ("Ref[Vec[int32]]", "ref(mkvi())"), ("(int32, bool)", "(1, true)"), ("(bool, int32)", "(true, 1)"),
+    ("((int32, bool), string)", '((1, true), "s")'), ("(int32, (bool, string))", '(1, (true, "s"))'), ("(int32, bool, string)", '(1, true, "s")'), ("Bq[int32]", "Bq { v: 1 }"), ("Bq[bool]", "Bq { v: true }"),
+    ("Bq[(int32, bool)]", "Bq { v: (1, true) }"), ("Bq[[int32; 2]]", "Bq { v: [1, 2] }"), ("Bq[Bq[int32]]", "Bq { v: Bq { v: 1 } }"), ("Pq", "Pq { a: 1 }"), ("Eq", "Eqa"), ("(int32) -> int32", "idq"), ("(int32) -> bool", "posq"),
+    ("(int32, int32) -> int32", "addq"), ("((int32) -> int32, int32)", "(idq, 1)"), ("dyn Tq", "dq"),
+]
+
+
+def typename_program(rng, n):
+    """n functions, each taking a tuple of two types drawn from structurally confusable types: every distinct type must get its own Go name"""
+    head = ("struct Bq[T] { v: T }\nstruct Pq { a: int32 }\nenum Eq { Eqa, Eqb(int32) }\ntrait Tq { fn tq(Self) -> int32; }\nimpl Tq for int32 { fn tq(self: int32) -> int32 { self } }\n"
+            "fn idq(x: int32) -> int32 { x }\nfn posq(x: int32) -> bool { x > 0 }\nfn addq(x: int32, y: int32) -> int32 { x + y }\n"
+            "fn mkvi() -> Vec[int32] { vec_new() }\nfn mkvb() -> Vec[bool] { vec_new() }\nfn mkva2() -> Vec[[int32; 2]] { vec_new() }\nfn mkva3() -> Vec[[int32; 3]] { vec_new() }\nfn mkvv() -> Vec[Vec[int32]] { vec_new() }\n")
+    fns, calls = [], ["    let dq: dyn Tq = 5;"]
+    for i in range(n):
+        (t1, v1), (t2, v2) = rng.choice(TN_TYPES), rng.choice(TN_TYPES)
+        shape = rng.choice(["pair", "pair", "triple", "nested", "vec", "ref", "arr"])
+        if shape == "pair":
+            ty, val = "(%s, %s)" % (t1, t2), "(%s, %s)" % (v1, v2)
+        elif shape == "triple":
+            ty, val = "(%s, %s, int32)" % (t1, t2), "(%s, %s, 1)" % (v1, v2)
+        elif shape == "nested":
+            ty, val = "((%s, %s), %s)" % (t1, t2, t1), "((%s, %s), %s)" % (v1, v2, v1)
+        elif shape == "vec":
+            ty, val = "(Vec[%s], %s)" % (t1, t2), None
+        elif shape == "ref":
+            ty, val = "(Ref[%s], %s)" % (t1, t2), "(ref(%s), %s)" % (v1, v2)
+        else:
+            ty, val = "([%s; 2], %s)" % (t1, t2), "([%s, %s], %s)" % (v1, v1, v2)
+        if val is None:
+            fns.append("fn mk%d() -> Vec[%s] { vec_new() }\nfn tn%d(t: %s) -> int32 { %d }" % (i, t1, i, ty, i))
+            calls.append("    let _ = string_println(int32_to_string(tn%d((mk%d(), %s))));" % (i, i, v2))
+        else:
+            fns.append("fn tn%d(t: %s) -> int32 { %d }" % (i, ty, i))
+            calls.append("    let _ = string_println(int32_to_string(tn%d(%s)));" % (i, val))
+    return head + "\n".join(fns) + "\nfn main() {\n" + "\n".join(calls) + "\n    ()\n}\n"
+
+
+def typename_stage(run, wits, broken):
+    """distinct types get distinct Go type names (and Go would accept the declarations)"""
+    import c02
+    import go2coq
+    import rustdbg
+    import semrun
+
+    rng = run.sub_rng("c19-typenames")
+    progs = [typename_program(rng, rng.randint(4, 10)) for _ in range(30 if run.tier == "quick" else 500)]
+    root, paths = semrun.write_programs("c19tn", progs)
+    res = vlib.run_harness("compile", [{"path": p_, "dumps": ["go_dbg"], "timeout_ms": 20000} for p_ in paths], shards=vlib.NCPU)
+    st = {"programs": len(progs), "accepted": 0, "clean": 0}
+    texts, idx = [], []
+    for i, (src_, r) in enumerate(zip(progs, res)):
+        if "panic" in r or r.get("timeout"):
+            wits.append({"kind": "the compiler panicked on a program that only names types: " + str(r.get("panic", "timeout"))[:200], "program": src_})
+            continue
+        if not r.get("ok"):
+            continue  # (a closure-typed position and the like may be rejected; acceptance is not judged here)
+        st["accepted"] += 1
+        names = re.findall(r"^type (\w+) ", r["go"], re.M)
+        dup = sorted(x for x in set(names) if names.count(x) > 1)
+        if dup:
+            wits.append({"kind": "two different types are emitted under the Go type name %s" % dup[0], "program": src_})
+            continue
+        try:
+            texts.append("Definition f%d := %s.\n" % (len(texts), go2coq.file(rustdbg.parse(r["dumps"]["go_dbg"]))))
+            idx.append(i)
+        except (go2coq.Conv, KeyError, AssertionError):
+            pass
+    per_ = 12
+    hdr = "From Goml Require Import Common.Base Sem.GoAst C02.GoCheck.\nOpen Scope N_scope.\n"
+    codes = []
+    for o in vlib.coq_eval_many("c19tn", [hdr + "".join(texts[k : k + per_]) + "Eval vm_compute in [%s].\n" % "; ".join("match go_wf f%d with [] => 0 | (_, (c, _)) :: _ => c end" % j for j in range(k, min(k + per_, len(texts)))) for k in range(0, len(texts), per_)], timeout=1500):
+        codes += vlib.parse_nat_list(o)
+    for i, code in zip(idx, codes):
+        if code:
+            wits.append({"kind": "Go would reject the type declarations or their uses: %s" % c02.CODES.get(code, code), "program": progs[i]})
+        else:
+            st["clean"] += 1
+    import shutil
+
+    shutil.rmtree(root, ignore_errors=True)
+    if st["accepted"] * 2 < len(progs):
+        broken.append(Broken("generator", "C19 type names: fewer than half of the programs are accepted (%d of %d)" % (st["accepted"], len(progs))))
+    return st
+
+
 def replay_known(run):
     for k in run.known:
         kid = k["id"]
@@ -205,6 +293,13 @@ def replay_known(run):
             oa, ob = vlib.run_harness("go-ident", [[ord(c) for c in a], [ord(c) for c in b]])
             if oa.get("out") == ob.get("out"):
                 run.known_finding(kid, "%s: go_ident(%r) == go_ident(%r) == %r" % (kid, a, b, bytes(oa["out"]).decode()))
+        elif k["replay"]["kind"] == "type-name-collision":
+            (res,) = vlib.run_harness("compile", [{"path": os.path.join(vlib.VERIF, k["replay"]["program"])}])
+            if res.get("ok"):
+                names = re.findall(r"^type (\w+) ", res["go"], re.M)
+                dup = sorted(x for x in set(names) if names.count(x) > 1)
+                if dup:
+                    run.known_finding(kid, "%s: %s (%s declares %s twice)" % (kid, k["what"], k["replay"]["program"], dup[0]))
         elif k["replay"]["kind"] == "gensym-capture":
             p = os.path.join(vlib.VERIF, k["replay"]["program"])
             (res,) = vlib.run_harness("compile", [{"path": p}])
@@ -273,6 +368,10 @@ def check(run):
     replay_known(run)
     try:
         run.cov["correspondence"]["programs_with_adversarial_names"] = program_stage(run, wits, broken)
+    except Broken as b:
+        broken.append(b)
+    try:
+        run.cov["correspondence"]["type_names"] = typename_stage(run, wits, broken)
     except Broken as b:
         broken.append(b)
     run.cov["rule"] += (
